@@ -61,6 +61,10 @@ def plan(tier, seed):
         # solutions in which its parent carries different contents
         out += L.split_plan("unordered:U5chainx1x{a,c,d,bd,abcd}", [(sh, None) for sh in spaces.chain_shapes(5)],
                             [("a",), ("c",), ("d",), ("b", "d"), ("a", "b", "c", "d")], 150, {"family": "unordered", "costs": [lab[0]]})
+        # the 5-leaf comb on a species cherry over {ac, b, ab}: several compatible root orders with different optima while
+        # transfers pay off (an ANY answer must still be one of the ALL answers, whatever order the root orders come in)
+        out += L.split_plan("ordered:O5combx2x{ac,b,ab}", [(spaces.chain_shapes(5)[-1], (None, None))],
+                            [("a", "c"), ("b",), ("a", "b")], 60, {"family": "ordered", "costs": [lab[0]]})
         # four families on 3 object leaves, one species: every tuple of subsequences of abcd (syntenies with a hole that has
         # genes on both sides: runs lost across a family the parent lacks)
         out += L.split_plan("ordered:O3x1x4s", spaces.shape_pairs(3, 1, min_obj=3), spaces.subsequence_syntenies(4), 100,
@@ -86,7 +90,7 @@ def plan(tier, seed):
     out += L.split_plan("unordered:U5chainx1x3", [(sh, None) for sh in spaces.chain_shapes(5)], u3, 150,
                         {"family": "unordered", "costs": lab[:3]})
     # the quick slices that the larger ones above do not subsume
-    out = [sh for sh in plan("quick", seed) if sh["slice"] in ("ordered:O3x1x4s", "unordered:U5chainx1x{a,c,d,bd,abcd}")] + out      # cheap ones first
+    out = [sh for sh in plan("quick", seed) if sh["slice"] in ("ordered:O3x1x4s", "unordered:U5chainx1x{a,c,d,bd,abcd}", "ordered:O5combx2x{ac,b,ab}")] + out      # cheap ones first
     return out
 
 
